@@ -52,6 +52,8 @@ class Cfg:
     col_width_range: tuple | None = None  # page col_width drawn from this range (inches)
     group_by_p: int = 3                   # out of 10
     noncontig: float = 0.0                # probability that group_by keys are made non-contiguous
+    null_columns: float = 0.0             # probability that a plain / group_by column is an untyped all-null column (dtype Null)
+    last_row_option: bool = False         # RTFBody(last_row=False) in a tenth of the tables
     group_blanks: bool = False            # page_by / subline_by values may end in blanks ("Site A  ")
     page_by_return: float = 0.0           # probability that a later single-level page_by group reuses the value of an earlier, non-adjacent one
     numeric_page_by: float = 0.0          # probability that the page_by columns hold numbers (int / float) instead of tagged strings
@@ -120,6 +122,8 @@ def group_columns(draw, n, levels, tag, cfg: Cfg, dividers=False, max_run=6, nul
 
 @st.composite
 def plain_column(draw, cfg: Cfg, j, n, dtype=None, widths_hint=None):
+    if dtype is None and cfg.null_columns and draw(st.integers(0, 99)) < cfg.null_columns * 100:
+        return {"dtype": "null", "values": [None] * n}          # pl.DataFrame({"x": [None] * n}): dtype Null
     dtype = dtype or draw(st.sampled_from(cfg.dtypes))
     nullp = 12 if cfg.nulls else 0
     if dtype == "str":
@@ -395,6 +399,8 @@ def table_section(draw, cfg: Cfg, sec_index=0, multi=False):
         gc = draw(group_columns(n, len(group_by), "g", cfg, max_run=4, nulls=cfg.nulls))
         for lvl, j in enumerate(group_by):
             cols[j] = {"name": names[j], "dtype": "str", "values": gc[lvl]}
+            if cfg.null_columns and draw(st.integers(0, 99)) < cfg.null_columns * 100:
+                cols[j] = {"name": names[j], "dtype": "null", "values": [None] * n}     # a key level without any value
         body["group_by"] = [names[j] for j in group_by]
         if cfg.noncontig and n >= 3 and draw(st.integers(0, 99)) < cfg.noncontig * 100:
             a = draw(st.integers(0, n - 1))
@@ -444,6 +450,8 @@ def table_section(draw, cfg: Cfg, sec_index=0, multi=False):
             body.setdefault(k, v)
     if cfg.as_colheader_false and draw(st.integers(0, 99)) < 8:
         body["as_colheader"] = False
+    if cfg.last_row_option and draw(st.integers(0, 9)) == 0:
+        body["last_row"] = False
     sec = {"df": {"cols": cols}, "body": body}
     from .recipe import displayed_columns
     ndisp = len(displayed_columns(sec))
